@@ -335,8 +335,15 @@ def collect(rep, ids, results, out, crate_dir, harness_timeout, max_replays, stu
         if ok:
             entry["replay"] = path
             entry["replayed"] = why
-            rep.violations.append(Violation(prop, key, "%s on %s [%s]: %s" % (h.fn, entry["decl"], entry["bundle"], desc),
-                                            path, {"harness": hid}))
+            if entry.get("configuration"):
+                key["configuration"] = entry["configuration"]
+                what = "%s: %s -- %s" % (h.fn, desc, entry["configuration"])
+            else:
+                what = "%s on %s [%s]: %s" % (h.fn, entry["decl"], entry["bundle"], desc)
+            pm = _panic_message(path)
+            if pm:
+                what += " -- native replay: " + pm
+            rep.violations.append(Violation(prop, key, what, path, {"harness": hid}))
         else:
             entry["status"] = "unreproduced"
             entry["replay"] = path
@@ -346,6 +353,40 @@ def collect(rep, ids, results, out, crate_dir, harness_timeout, max_replays, stu
         hid, m, h, r, entry, fails = c
         entry["status"] = "candidate_not_replayed"
         rep.extra.setdefault("candidates_not_replayed", []).append(hid)
+
+
+B_FIELDS = ["as_str", "Debug", "Display", "from_str", "FromStr", "into", "IntoStr", "Into", "iter", "MAX", "MIN",
+            "names", "next_back", "next", "range", "try_from", "TryFrom"]
+
+
+def decode_cfg(vals):
+    """Engine B: the recorded kani::any() values in the field order of engine_b.rs::any_cfg"""
+    try:
+        flags = [v[0] != 0 for v in vals[:17]]
+        modes = [v[0] for v in vals[17:21]]
+        gapless = vals[21][0] != 0
+        num = int.from_bytes(bytes(vals[22]), "little")
+        size = int.from_bytes(bytes(vals[23]), "little")
+        am = ["auto", "match", "table"]
+        im = ["auto", "range", "next_and_back", "table", "table_inline"]
+        parts = []
+        for f, on in zip(B_FIELDS, flags):
+            if not on:
+                continue
+            if f == "as_str" and modes[0]:
+                parts.append('as_str(mode = "%s")' % am[modes[0]])
+            elif f == "from_str" and modes[1]:
+                parts.append('from_str(mode = "%s")' % am[modes[1]])
+            elif f == "FromStr" and modes[2]:
+                parts.append('FromStr(mode = "%s")' % am[modes[2]])
+            elif f == "iter" and modes[3]:
+                parts.append('iter(mode = "%s")' % im[modes[3]])
+            else:
+                parts.append(f)
+        return "#[enum_tools(%s)] on a %s enum with %d variants, repr size %d" % (
+            ", ".join(parts), "gapless" if gapless else "with-holes", num, size)
+    except Exception:
+        return None
 
 
 def replay_candidate(rep, crate_dir, cand, harness_timeout, stubbing, extra_lib, extra_files, deps=None):
@@ -364,6 +405,10 @@ def replay_candidate(rep, crate_dir, cand, harness_timeout, stubbing, extra_lib,
         d = rdir if ti == 0 else rdir + "_%d" % ti
         RP.write_replay_crate(d, m.name, m.text(), hid, vals, repo=REPO, extra_lib=extra_lib,
                               extra_files=extra_files, deps=deps)
+        if hid.startswith("hb::"):
+            cfg = decode_cfg(vals)
+            if cfg:
+                entry["configuration"] = cfg
         with open(os.path.join(d, "README.txt"), "w") as f:
             f.write("Counterexample found by Kani/CBMC for %s\nfailing checks: %s\n"
                     "replay:  cd %s && cargo run --offline --bin replay   (add --release for the release profile)\n"
@@ -458,6 +503,19 @@ def base_case_compile(rep, cases):
 
 # ----------------------------------------------------------------------------------
 # known findings, evidence, exit code
+
+def _panic_message(path):
+    for prof in ("dev", "release"):
+        try:
+            with open(os.path.join(path, "replay_%s.log" % prof)) as f:
+                txt = f.read()
+        except OSError:
+            continue
+        m = re.search(r"panicked at [^\n]*\n([^\n]+)", txt)
+        if m:
+            return m.group(1).strip()[:200]
+    return None
+
 
 def load_known():
     p = os.path.join(VERIF, "known_findings.json")
